@@ -127,7 +127,7 @@ func (m *TWCCModel) Chunks(r *core.Rand, co ChunkOpts) []rtcp.PacketStatusChunk 
 				l = 1 + r.Intn(run)
 			}
 			rl := l
-			if co.OvershootRun && i+l == n && r.Bool() {
+			if co.OvershootRun && i+l == n && l < 8191 && r.Bool() {
 				rl = l + 1 + r.Intn(8191-l)
 				if rl > 8191 {
 					rl = 8191
